@@ -101,6 +101,7 @@ type lastCtx struct {
 
 // closureOpts selects what a closure run explores.
 type closureOpts struct {
+	parallel    int
 	onLast      func(lc *lastCtx)
 	noBuiltin   bool // skip the built-in transition oracles (hook only)
 	role        Role
@@ -139,7 +140,7 @@ func opsFor(o closureOpts) []int {
 func runClosure(x *mc.Cell, o closureOpts) {
 	ops := opsFor(o)
 	opName := func(i int) string { return Alphabet[ops[i]].Name }
-	x.BFS(o.name, mc.BFSOpts{NumOps: len(ops), MaxDepth: o.maxDepth, MaxStates: o.maxStates, OpName: opName},
+	x.BFS(o.name, mc.BFSOpts{NumOps: len(ops), MaxDepth: o.maxDepth, MaxStates: o.maxStates, OpName: opName, Parallel: o.parallel},
 		func(hist []int) (key string, enabled bool) {
 			enabled = true
 			pv, stack := mc.Bubble(x.T, func() {
@@ -425,6 +426,14 @@ func init() {
 			})
 			mc.Register(prop, fmt.Sprintf("l1-coupling-guard/%s", RoleNames[r]), "quick", func(x *mc.Cell) {
 				runClosure(x, closureOpts{role: r, roleConsist: true, fullKey: true, maxDepth: 3, name: "coupling-guard-" + RoleNames[r]})
+			})
+			// thorough: the full accessor key (counters, indexes, log lengths, limit, message class), to closure,
+			// expanded by 8 child processes per role; plus the role-INconsistent alphabet to depth 3 (non-corruption oracles only)
+			mc.Register(prop, fmt.Sprintf("l1-closure-full-key/%s", RoleNames[r]), "thorough", func(x *mc.Cell) {
+				runClosure(x, closureOpts{role: r, roleConsist: true, fullKey: true, parallel: 8, maxStates: 60000, name: "closure-full-" + RoleNames[r]})
+			})
+			mc.Register(prop, fmt.Sprintf("l1-role-inconsistent/%s", RoleNames[r]), "thorough", func(x *mc.Cell) {
+				runClosure(x, closureOpts{role: r, roleConsist: false, fullKey: false, maxDepth: 5, name: "role-inconsistent-" + RoleNames[r]})
 			})
 		}
 	}
